@@ -118,7 +118,10 @@ def run(ctx):
         # warm the caches, remember the cached objects
         run_cfg(BASE)
         ids0, content0 = cached_objects()
-        for cfgi, cfg in enumerate([BASE, dict(BASE, joint=True, lengths=[40, 33], K=2, data_seed=22, rng_seed=22)]):
+        # scalar parameters; three series of unequal length; matrix-valued sparsity weight (not symmetric) with per-pair switching costs
+        for cfgi, cfg in enumerate([BASE, dict(BASE, joint=True, lengths=[30, 50, 40], K=2, data_seed=22, rng_seed=22),
+                                    dict(BASE, lam_matrix="asym", beta_vec="ramp", K=2, limit=3, data_seed=23, rng_seed=23),
+                                    dict(BASE, lam_matrix="upper", K=3, limit=3, data_seed=24, rng_seed=24)]):
             ref = run_cfg(cfg)
             dref = digest(ref)
             if ref["error"] is not None:
